@@ -30,7 +30,19 @@ type cwParked struct {
 }
 
 func (p *cwParked) desc() string {
-	return "fs " + p.class + " " + p.kind.String() + " " + simfs.PathClass(cwNormPath(p.path))
+	return "fs " + p.class + " " + p.kind.String() + " " + cwPathClass(cwNormPath(p.path))
+}
+
+// cwPathClass: simfs.PathClass per path component, but measurement directories keep
+// their name (a directed schedule must be able to tell the measurements apart).
+func cwPathClass(p string) string {
+	parts := strings.Split(p, "/")
+	for i, c := range parts {
+		if !strings.HasPrefix(c, "mst") {
+			parts[i] = simfs.PathClass(c)
+		}
+	}
+	return strings.Join(parts, "/")
 }
 
 func (p *cwParked) sortKey() string {
